@@ -209,3 +209,13 @@ def replay(ctx: Ctx, payload) -> Tuple[bool, str]:
             return False, obs[-1]
         return True, "ok"
     return True, "unknown kind"
+
+
+# ------------------------------------------------------------------------------------------------
+# thread-interleaving half of C04: the Prefetcher / ParallelMapper protocol models (theorems over every
+# interleaving + trace validation + stream oracles), assembled with the sequential-algebra part above.
+from . import _compose, pf_parts, pm_parts  # noqa: E402
+
+PARTS = [_compose.Part("nodes", run, replay, theorems=THEOREMS, modules=LEAN_MODULES, known=globals().get("KNOWN"))]
+PARTS += pf_parts.parts("C04") + pm_parts.parts("C04")
+_compose.assemble(globals(), PARTS, RULE, EXPLANATION, ASSUMPTIONS)
